@@ -65,6 +65,12 @@ const LABELS: &[&str] = &[
     "cap:last-use(by-value)",
     "cap:by-value+inplace-operand",
     "cap:needed-later+inplace-operand",
+    "body:MatMul(const-weight)",
+    "parent:MatMul(const-weight)",
+    "if:MatMul-in-both-branches",
+    "nested-if:MatMul-in-both-branches",
+    "if:MatMul-in-both-branches+else-taken",
+    "if:MatMul-in-both-branches+then-taken",
 ];
 
 fn intern(s: &str) -> &'static str {
@@ -73,6 +79,53 @@ fn intern(s: &str) -> &'static str {
 
 /// Fused kernels (Silu, Reciprocal, ...) may differ from the unfused sequence in the last bits.
 const OPT_TOL: Tol = Tol { rtol: 1e-4, atol: 1e-5 };
+
+/// Prepacked GEMM vs the plain GEMM of the reference (coordinator-specified; a wrong weight gives O(1) differences).
+const PREPACK_TOL: Tol = Tol { rtol: 1e-5, atol: 1e-6 };
+
+/// Load configurations of the control-flow model.
+#[derive(Clone, Copy, PartialEq, Eq, Debug)]
+enum Cfg {
+    Plain,
+    Opt,
+    PlainPrepack,
+    OptPrepack,
+}
+
+impl Cfg {
+    fn name(self) -> &'static str {
+        match self {
+            Cfg::Plain => "opt-off",
+            Cfg::Opt => "opt-on/infer-on",
+            Cfg::PlainPrepack => "opt-off+prepack",
+            Cfg::OptPrepack => "opt-on/infer-on+prepack",
+        }
+    }
+    fn load(self, bytes: &[u8]) -> Result<rten::Model, String> {
+        match self {
+            Cfg::Plain => Config::Plain.load(bytes),
+            Cfg::Opt => Config::OptInferOn.load(bytes),
+            Cfg::PlainPrepack | Cfg::OptPrepack => {
+                let mut o = rten::ModelOptions::with_all_ops();
+                if self == Cfg::OptPrepack {
+                    o.enable_optimization(true).shape_inference(rten::ShapeInferenceMode::On);
+                } else {
+                    o.enable_optimization(false);
+                }
+                o.prepack_weights(true);
+                o.load(bytes.to_vec()).map_err(|e| format!("{e}"))
+            }
+        }
+    }
+    /// Tolerance accepted after the exact comparison failed (None = must be exact), with its class label.
+    fn tol(self) -> Option<(Tol, &'static str)> {
+        match self {
+            Cfg::Plain => None,
+            Cfg::Opt | Cfg::OptPrepack => Some((OPT_TOL, "opt-on:last-bits-differ")),
+            Cfg::PlainPrepack => Some((PREPACK_TOL, "prepack:last-bits-differ")),
+        }
+    }
+}
 
 fn err_class(e: &str) -> String {
     let mut out = String::new();
@@ -167,7 +220,13 @@ fn oracle(c: &CtlCase) -> Verdict {
     };
 
     let all_borrowed = vec![false; b.owned.len()];
-    let runs: [(Config, &[bool]); 3] = [(Config::Plain, &b.owned), (Config::OptInferOn, &b.owned), (Config::Plain, &all_borrowed)];
+    let runs: [(Cfg, &[bool]); 5] = [
+        (Cfg::Plain, &b.owned),
+        (Cfg::Opt, &b.owned),
+        (Cfg::Plain, &all_borrowed),
+        (Cfg::PlainPrepack, &b.owned),
+        (Cfg::OptPrepack, &b.owned),
+    ];
     let mut loaded: BTreeMap<&'static str, rten::Model> = BTreeMap::new();
     for (cfg, owned) in runs {
         if !loaded.contains_key(cfg.name()) {
@@ -227,7 +286,7 @@ fn oracle(c: &CtlCase) -> Verdict {
                 )
             }
         };
-        let exact = cfg == Config::Plain;
+        let tol = cfg.tol();
         let Some(reference) = &reference else {
             labels.push("zero-iter-scan:loop-not-needed(run-ok)");
             continue;
@@ -236,9 +295,11 @@ fn oracle(c: &CtlCase) -> Verdict {
             let got = &outs[ncf];
             let want = &reference[ninl];
             if let Err(why) = compare(want, got, Tol::EXACT) {
-                if !exact && compare(want, got, OPT_TOL).is_ok() {
-                    labels.push("opt-on:last-bits-differ");
-                    continue;
+                if let Some((t, class)) = tol {
+                    if compare(want, got, t).is_ok() {
+                        labels.push(class);
+                        continue;
+                    }
                 }
                 return Verdict::fail(
                     format!("mismatch:{}:cf-vs-inlined", cfg.name()),
@@ -250,9 +311,11 @@ fn oracle(c: &CtlCase) -> Verdict {
             let got = &outs[name];
             let want = &base[name];
             if let Err(why) = compare(want, got, Tol::EXACT) {
-                if !exact && compare(want, got, OPT_TOL).is_ok() {
-                    labels.push("opt-on:last-bits-differ");
-                    continue;
+                if let Some((t, class)) = tol {
+                    if compare(want, got, t).is_ok() {
+                        labels.push(class);
+                        continue;
+                    }
                 }
                 return Verdict::fail(
                     format!("mismatch:{}:parent-value-changed", cfg.name()),
@@ -282,11 +345,13 @@ fn main() {
          parent values, nested If/Loop one level deep, body outputs as node outputs, body inputs directly, local constants, or Identity \
          of captures. The same choices are emitted as the control-flow model, the inlined model and the parent-only model. The \
          control-flow model runs with optimisation off and on (shape inference on), with the generated owned/borrowed flags and all \
-         borrowed. Non-trivial = the inlined emission executed at least one body that reads a value of an enclosing scope (a capture), \
+         borrowed, and with prepacked weights (optimisation off and on); bodies and the parent also contain MatMul with a constant \
+         [k,k] weight (left operand >= 2 rows, distinct weight values per site, weight initializer first in its graph). Non-trivial = the inlined emission executed at least one body that reads a value of an enclosing scope (a capture), \
          and the loop did not have zero iterations with scan outputs. Distinct = distinct raw case.",
     );
     ck.assume("reference = rten itself running the inlined / parent-only model with optimisation off and borrowed inputs (same kernels, so comparison is bit-exact with optimisation off)");
     ck.assume("with optimisation on, outputs may differ from the unfused reference within rtol 1e-4 / atol 1e-5 (fused Silu/Reciprocal kernels); counted as class opt-on:last-bits-differ");
+    ck.assume("with prepacked weights (optimisation off) outputs may differ from the plain-GEMM reference within rtol 1e-5 / atol 1e-6; counted as class prepack:last-bits-differ");
     ck.assume("a zero-iteration Loop with scan outputs returning rten's output-count error is not a violation (DESIGN.md C24 Reading); counted as class zero-iter-scan:error(output-count)");
     ck.set_threads(12);
     let n = ck.pick(30_000, 300_000);
